@@ -8,7 +8,7 @@ import os
 from .run import VERIF
 
 
-def make_replay(prop, o, unit, repo, extra=None):
+def make_replay(prop, o, unit, repo, extra=None, unit_meta=None):
     os.makedirs(os.path.join(VERIF, 'replays'), exist_ok=True)
     h = hashlib.sha256((o['name'] + '|' + o['unit']).encode()).hexdigest()[:8]
     path = os.path.join(VERIF, 'replays', '%s-%s.json' % (prop, h))
@@ -22,8 +22,26 @@ def make_replay(prop, o, unit, repo, extra=None):
            'how_to_rerun': './check %s --units %s -v' % (prop, o['unit'].split(':')[-1])}
     if extra:
         rec.update(extra)
+    confirmed = False
+    if o.get('replay_inputs') and unit_meta:
+        # native replay: the inputs of the counter-model, the real function under CPython, the failed clause in plain Python
+        import subprocess
+        from .run import REPO
+        nrec = {'unit_key': unit_meta.get('unit_key'), 'contract_file': unit_meta.get('contract_file'), 'unit_line': unit_meta.get('unit_line'),
+                'clause_line': (o.get('info') or {}).get('clause_line'), 'obligation': o['name'], 'obligation_kind': o.get('kind'),
+                'inputs': o['replay_inputs'], 'repo_root': REPO}
+        npath = path[:-5] + '.native.json'
+        json.dump(nrec, open(npath, 'w'), indent=1, default=str)
+        try:
+            p_ = subprocess.run(['/venv/bin/python', os.path.join(VERIF, 'nreplay', 'native.py'), npath, REPO], capture_output=True, text=True, timeout=120)
+            rec['native_replay'] = {'cmd': '/venv/bin/python nreplay/native.py %s %s' % (npath, REPO), 'exit': p_.returncode,
+                                    'output': (p_.stdout + p_.stderr).strip().splitlines()[-12:], 'inputs': o['replay_inputs']}
+            confirmed = (p_.returncode == 1)
+        except Exception as e:      # pragma: no cover
+            rec['native_replay'] = {'error': str(e)}
+    rec['failing_input_found'] = confirmed
     json.dump(rec, open(path, 'w'), indent=1, default=str)
-    return path, False
+    return path, confirmed
 
 
 def run_replay_file(path):
